@@ -1824,6 +1824,7 @@ fn main() {
         let mut cx = Ctx { m: &mut m, rep: &mut rep, seen: HashSet::new(), thorough, slow_budget: if thorough { 40 } else { 2 } };
         let t_all = std::time::Instant::now();
         // directed regression cases of the two fixed findings of this round run first
+        if std::env::var("C10_TIMES").is_ok() { eprintln!("before rot.node {:?}", t_all.elapsed()); }
         let mut r = root.fork("rot.node");
         for i in 0..(if thorough { 6 } else { 2 }) {
             run_rot_node(&mut cx, &mut r, 30_000 + i);
